@@ -240,7 +240,9 @@ type srvState struct {
 	malformed []string
 	actions   map[string]int64
 	dropAfter int // close the next n sessions right after the handshake
-	silent    atomic.Bool
+	// sessions that began with unrelated packets in the same write as the handshake confirmation
+	piggybacked int64
+	silent      atomic.Bool
 }
 
 func newSrvState(rng *mon.Rng, pol policy) *srvState {
@@ -353,6 +355,22 @@ func (s *srvState) junkPacket() []byte {
 	body := append([]byte("UNKNOWN-ID:"), s.rng.Bytes(s.rng.Intn(100))...)
 	s.fpOwner[fpOf(body)] = ""
 	return adnl.BuildAnswer(id, body)
+}
+
+// piggyback: every other session starts with one or two unrelated packets written together with the
+// handshake confirmation (first connects and reconnects alike).
+func (s *srvState) piggyback() [][]byte {
+	s.mu.Lock()
+	defer s.mu.Unlock()
+	if s.rng.Bool() {
+		return nil
+	}
+	var out [][]byte
+	for n := s.rng.Range(1, 2); n > 0; n-- {
+		out = append(out, s.junkPacket())
+	}
+	s.piggybacked++
+	return out
 }
 
 func (s *srvState) serve(p *adnl.Peer) {
@@ -929,7 +947,7 @@ func (e *env) setup(pol policy, workers int, timeout time.Duration) bool {
 	e.workers, e.timeout = workers, timeout
 	e.st = newSrvState(e.fork("server", 0), pol)
 	ip := fmt.Sprintf("127.%d.%d.%d", 16+os.Getpid()%200, (e.sc.Idx>>8)&255, e.sc.Idx&255)
-	srv, err := adnl.Listen(ip+":0", e.id, e.st.nonce, func(s *adnl.Server) { s.OnPeer = e.st.serve })
+	srv, err := adnl.Listen(ip+":0", e.id, e.st.nonce, func(s *adnl.Server) { s.OnPeer, s.Piggyback = e.st.serve, e.st.piggyback })
 	if err != nil {
 		e.w.HarnessError("listen: " + err.Error())
 		return false
@@ -1003,6 +1021,7 @@ func (e *env) judge(mustSucceed map[string]bool) {
 	e.w.Count("server_sessions", int64(st.sessions))
 	e.w.Count("server_queries", st.queries)
 	e.w.Count("server_pings", atomic.LoadInt64(&st.pings))
+	e.w.Count("sessions_with_packets_behind_the_handshake_confirmation", st.piggybacked)
 	for a, n := range st.actions {
 		e.w.Count("server_action:"+a, n)
 		e.w.Seen("server_actions", a)
@@ -1520,7 +1539,9 @@ func (rc *recovery) await(tClose, tOK time.Time, class string, sessionsBefore in
 	}
 }
 
-var refuseModes = []string{"none", "turn-away", "stop-listening", "drop-after-handshake"}
+// slow-handshake: the server accepts the TCP connection of a reconnecting client at once but holds
+// back its handshake answer for some seconds; calls made in the meantime come back by their deadline
+var refuseModes = []string{"none", "turn-away", "stop-listening", "drop-after-handshake", "slow-handshake"}
 
 // reconnect: healthy phase, then the server drops connections (while calls are
 // in flight, or while idle) and possibly turns clients away for a while; after
@@ -1568,6 +1589,13 @@ func scenarioReconnect(e *env) {
 		abrupt = false
 	case 5, 6:
 		refuse, minDrop = "drop-after-handshake", 2
+	case 7:
+		refuse, variant = "slow-handshake", "mid-request"
+	}
+	if refuse == "slow-handshake" {
+		// well beyond timeout + slack, so that a call that waits for the handshake is told from one that merely fails
+		refuseFor = time.Duration(e.rng.Range(4000, 6000)) * time.Millisecond
+		timeout = time.Duration(e.rng.Range(400, 800)) * time.Millisecond
 	}
 	e.wit["goroutines"], e.wit["workers_per_connection"], e.wit["variant"], e.wit["refuse"], e.wit["refuse_ms"], e.wit["rst"], e.wit["only_one_connection"] =
 		g, workers, variant, refuse, refuseFor.Milliseconds(), abrupt, onlyOne
@@ -1589,6 +1617,8 @@ func scenarioReconnect(e *env) {
 			e.srv.TurnAway(true)
 		case "stop-listening":
 			e.srv.StopListening()
+		case "slow-handshake":
+			e.srv.SetHandshakeDelay(refuseFor)
 		case "drop-after-handshake":
 			e.st.mu.Lock()
 			e.st.dropAfter = e.rng.Range(minDrop, 3)
@@ -1610,9 +1640,12 @@ func scenarioReconnect(e *env) {
 		class := fmt.Sprintf("%s/refuse=%s", variant, refuse)
 		e.w.Seen("faults", fmt.Sprintf("%s/rst=%v/one=%v", class, abrupt, onlyOne))
 		e.w.Seen("fault_rounds_on_one_client", fmt.Sprint(r))
-		if refuse == "turn-away" || refuse == "stop-listening" {
+		if refuse == "turn-away" || refuse == "stop-listening" || refuse == "slow-handshake" {
 			time.Sleep(refuseFor)
-			if refuse == "turn-away" {
+			if refuse == "slow-handshake" {
+				e.srv.SetHandshakeDelay(0)
+				e.w.Count("handshakes_held_back_by_the_server", e.srv.SlowHandshakes.Load())
+			} else if refuse == "turn-away" {
 				e.srv.TurnAway(false)
 			} else if err := e.srv.ResumeListening(); err != nil {
 				e.w.Inconclusive("listening port was taken while the server refused connections")
@@ -2012,7 +2045,7 @@ func main() {
 	}
 	R := mon.Start("C12", tier)
 	R.Rule = "one evaluation per Client call (raw Request or generated LiteServerGetLibraries) issued by 1..64 goroutines over 1..4 connections against the reference ADNL server with a seed-driven adversarial answer scheduler " +
-		"(now / delayed / permuted coalesced batches / twice / the same answer 2..8 times at once, also right at the caller's deadline / preceded by an answer to an unknown id / surrounded by pongs and junk / never; connections closed mid-request or idle, with FIN or RST, all or one, once or twice per client, also twice in a row on an idle client (nobody calls; the sessions must come back by themselves within the progress bound); clients turned away, listener closed, or sessions dropped again right after they were re-established); " +
+		"(now / delayed / permuted coalesced batches / twice / the same answer 2..8 times at once, also right at the caller's deadline / preceded by an answer to an unknown id / surrounded by pongs and junk / never; connections closed mid-request or idle, with FIN or RST, all or one, once or twice per client, also twice in a row on an idle client (nobody calls; the sessions must come back by themselves within the progress bound); clients turned away, listener closed, sessions dropped again right after they were re-established, or the handshake answer of a reconnecting client held back for 4-6 s while calls go on; every other session starts with unrelated packets in the same write as the handshake confirmation); " +
 		"about one call in seven is made with a context of the caller's (deadline later or earlier than the client's timeout, cancelled in flight, already cancelled / expired on entry): the call is over by min(client timeout, caller's deadline or cancellation); requests and answers also take the lengths 253..257 around the TL length-prefix boundary; a status poller calls Client.AverageRoundTrip and IsOK next to the callers; " +
 		"every call carries a unique key and every answer the server produced is logged under it, so a successful call is compared with the answers produced for its own query id; distinct = distinct calls. " +
 		"Monitors: own answer; success in fault-free phases (a timeout counts when the server wrote the answer within timeout-2 s, or within half the timeout for timeouts below 4 s while the load probe saw nothing); return by allowed time+2 s (load-aware; +300 ms while the load probe saw nothing at all); after the answers-at-the-deadline phase sequential calls must still get through (client stuck = most of them lost and a client goroutine blocked on a channel send / lock in two dumps); 2*connections consecutive successes and IsOK within 45 s of the server accepting again; goroutines inside tongo equal after 10x more calls; 60 s watchdog; race detector; interleavings = distinct sequences of hook events (first 24) observed while a call was in flight"
@@ -2040,7 +2073,7 @@ func main() {
 	add("idletwice", R.N(1, 4))
 	add("slow", R.N(1, 6))
 	add("edge", R.N(2, 30))
-	add("reconnect", R.N(7, 40))
+	add("reconnect", R.N(8, 40))
 	add("directed", R.N(1, 2))
 	add("growth", R.N(1, 10))
 	add("deadline", R.N(3, 50))
